@@ -279,7 +279,23 @@ fn do_generate(req: &Value) -> Value {
             Err(e) => return json!({"io_err": e.to_string()}),
         }
     }
-    json!({"out": out, "ir": ir})
+    // folder mode: run the language's post-generation step in a scratch directory and report the files it wrote
+    let mut extra = Map::new();
+    if let Some(dir) = req.get("post_generation_dir").and_then(|v| v.as_str()) {
+        let _ = std::fs::create_dir_all(dir);
+        if let Err(e) = l.post_generation(dir) {
+            return json!({"post_generation_err": e.to_string()});
+        }
+        if let Ok(rd) = std::fs::read_dir(dir) {
+            for e in rd.flatten() {
+                if let Ok(t) = std::fs::read_to_string(e.path()) {
+                    extra.insert(e.file_name().to_string_lossy().to_string(), json!(t));
+                }
+            }
+        }
+        let _ = std::fs::remove_dir_all(dir);
+    }
+    json!({"out": out, "ir": ir, "post_generation_files": extra})
 }
 
 fn do_rename(req: &Value) -> Value {
